@@ -3,7 +3,8 @@ import SplinkVerif.Model.Cache
 # Helper lemmas for C07 (cache soundness)
 
 The state invariant of the table cache model (`Model/Cache.lean`), its preservation by every
-operation except the silent `mutate`, and the corollaries used by `Properties/C07.lean`;
+operation except the silent `mutate` (the salt change `resalt` and the re-registration `reregister`
+included), and the corollaries used by `Properties/C07.lean`;
 soundness of the realtime SQL cache; explicit counterexamples.
 -/
 namespace SplinkVerif.Lemmas.CacheL
@@ -92,6 +93,9 @@ theorem mem_foldl_dropTable_db (l : List Phys) (s : State) {x : Phys × Nat}
     · exact h4 hm
     · exact h2 hm
 
+theorem foldl_dropTable_db_sub (l : List Phys) (s : State) {x : Phys × Nat}
+    (h : x ∈ (l.foldl dropTable s).db) : x ∈ s.db := (mem_foldl_dropTable_db l s h).1
+
 theorem deleteCreated_uid (s : State) : (deleteCreated s).uid = s.uid := foldl_dropTable_uid _ s
 theorem deleteCreated_data (s : State) : (deleteCreated s).data = s.data := foldl_dropTable_data _ s
 
@@ -101,6 +105,9 @@ theorem mutateInvalidate_uid (s : State) : (mutateInvalidate s).uid = s.uid :=
   invalidate_uid { s with data := s.data + 1 }
 theorem mutateInvalidate_data (s : State) : (mutateInvalidate s).data = s.data + 1 :=
   invalidate_data { s with data := s.data + 1 }
+theorem reregister_uid (s : State) : (reregister s).uid = s.uid + 1 := rfl
+theorem reregister_data (s : State) : (reregister s).data = s.data + 1 := rfl
+theorem reregister_db (s : State) : (reregister s).db = s.db := rfl
 
 /-- `delete_tables_created_by_splink_from_db` drops every table that the dict tracks under its own
 physical name as created by Splink. -/
@@ -119,15 +126,19 @@ theorem mem_deleteCreated_db {s : State} {x : Phys × Nat} (h : x ∈ (deleteCre
 section
 variable (hash eval : Nat → Nat → Nat) (namedText : Nat → Nat) (D : Nat → Prop)
 
-/-- Every catalog table whose name is the hash of some SQL text under the (constant) uid is tracked by
+/-- Every catalog table whose name is the hash of some SQL text under the CURRENT uid (salt) is tracked by
 the dictionary under its own physical name as created by Splink, with the same contents — so
-`invalidate_cache()` drops it; every hashed entry and every named entry of the dictionary hold the
-current contents of their query. `D templ` : the templated name is one that the history computes
-under its name. -/
+`invalidate_cache()` drops it; no catalog table is named by a hash under a salt that has not been drawn yet
+(`dbOld`); every hashed entry of the dictionary was hashed under a salt drawn so far, and those hashed under
+the current salt hold the current contents of their query (those hashed under an older salt may be stale:
+no request can reach them any more); every named entry holds the current contents of its query.
+`D templ` : the templated name is one that the history computes under its name. -/
 structure Inv (s : State) : Prop where
   db : ∀ p v, (p, v) ∈ s.db → ∀ text, p.hash = hash text s.uid →
     (Key.phys p, (⟨p, v, true⟩ : Entry)) ∈ s.cache
-  phys : ∀ p e, (Key.phys p, e) ∈ s.cache → ∃ text, p.hash = hash text s.uid ∧ e.val = eval text s.data
+  dbOld : ∀ p v, (p, v) ∈ s.db → ∀ text u, p.hash = hash text u → u ≤ s.uid
+  phys : ∀ p e, (Key.phys p, e) ∈ s.cache →
+    ∃ text u, p.hash = hash text u ∧ u ≤ s.uid ∧ (u = s.uid → e.val = eval text s.data)
   named : ∀ t e, (Key.named t, e) ∈ s.cache → D t ∧ e.val = eval (namedText t) s.data
 
 theorem inv_init : Inv hash eval namedText D init := by
@@ -137,7 +148,7 @@ variable {hash eval namedText D}
 
 theorem execute_val (s : State) (r : Req) : (execute hash eval s r).val = eval r.text s.data := rfl
 
-theorem inv_execute {s : State} (hI : Inv hash eval namedText D s) (r : Req) :
+theorem inv_execute (hinj : HashInj hash) {s : State} (hI : Inv hash eval namedText D s) (r : Req) :
     Inv hash eval namedText D (execute hash eval s r).state := by
   constructor
   · intro p v h text hh
@@ -154,12 +165,19 @@ theorem inv_execute {s : State} (hI : Inv hash eval namedText D s) (r : Req) :
       have hne : p ≠ ⟨r.templ, hash r.text s.uid⟩ := bne_iff_ne.1 h2
       refine List.mem_cons_of_mem _ (List.mem_filter.2 ⟨hI.db p v h1 text hh, ?_⟩)
       exact bne_iff_ne.2 (fun hk => hne (Key.phys.inj hk))
+  · intro p v h text u hh
+    have h : (p, v) ∈ dbSet ⟨r.templ, hash r.text s.uid⟩ (eval r.text s.data) s.db := h
+    rcases mem_dbSet h with h | h
+    · injection h with hp _
+      subst hp
+      exact Nat.le_of_eq (hinj _ _ _ _ hh).2.symm
+    · exact hI.dbOld p v h text u hh
   · intro p e h
     rcases mem_cacheSet h with h | h
     · injection h with hk he
       injection hk with hk
       subst hk he
-      exact ⟨r.text, rfl, rfl⟩
+      exact ⟨r.text, s.uid, rfl, Nat.le_refl _, fun _ => rfl⟩
     · exact hI.phys p e h
   · intro t e h
     rcases mem_cacheSet h with h | h
@@ -188,11 +206,11 @@ theorem request_uid (s : State) (r : Req) : (request hash eval s r).state.uid = 
 theorem request_data (s : State) (r : Req) : (request hash eval s r).state.data = s.data := by
   rcases request_state (hash := hash) (eval := eval) s r with h | h <;> rw [h] <;> rfl
 
-theorem inv_request {s : State} (hI : Inv hash eval namedText D s) (r : Req) :
+theorem inv_request (hinj : HashInj hash) {s : State} (hI : Inv hash eval namedText D s) (r : Req) :
     Inv hash eval namedText D (request hash eval s r).state := by
   rcases request_state (hash := hash) (eval := eval) s r with h | h <;> rw [h]
   · exact hI
-  · exact inv_execute hI r
+  · exact inv_execute hinj hI r
 
 /-- The heart of C07: in a state satisfying the invariant, a request returns the current contents
 of its SQL. (A catalog table named by the current hash is always tracked by the dict, so the
@@ -210,23 +228,23 @@ theorem request_val_of_inv (hinj : HashInj hash) {s : State} (hI : Inv hash eval
       rw [hv, hr hd]
     · split
       · next e h2 =>
-        obtain ⟨text, hh, hv⟩ := hI.phys _ _ (cacheGet_mem h2)
+        obtain ⟨text, u, hh, _, hv⟩ := hI.phys _ _ (cacheGet_mem h2)
         show e.val = _
-        obtain ⟨h1, _⟩ := hinj _ _ _ _ hh
-        rw [hv, h1]
+        obtain ⟨h1, hu⟩ := hinj _ _ _ _ hh
+        rw [hv hu.symm, h1]
       · split
         · next v h3 =>
           show v = _
-          obtain ⟨text, hh, hv⟩ := hI.phys _ _ (hI.db _ _ (dbGet_mem h3) r.text rfl)
-          obtain ⟨h1, _⟩ := hinj _ _ _ _ hh
-          rw [h1]; exact hv
+          obtain ⟨text, u, hh, _, hv⟩ := hI.phys _ _ (hI.db _ _ (dbGet_mem h3) r.text rfl)
+          obtain ⟨h1, hu⟩ := hinj _ _ _ _ hh
+          rw [h1]; exact hv hu.symm
         · rfl
   · rfl
 
 theorem inv_computeNamed (hinj : HashInj hash) {s : State} (hI : Inv hash eval namedText D s)
     (r : Req) (hD : D r.templ) (hr : r.text = namedText r.templ) :
     Inv hash eval namedText D (applyOp hash eval s (.computeNamed r)) := by
-  have hI' := inv_request hI r
+  have hI' := inv_request hinj hI r
   have hv := request_val_of_inv hinj hI r (fun _ => hr)
   have hdat := request_data (hash := hash) (eval := eval) s r
   show Inv hash eval namedText D
@@ -239,6 +257,7 @@ theorem inv_computeNamed (hinj : HashInj hash) {s : State} (hI : Inv hash eval n
     unfold cacheSet
     refine List.mem_cons_of_mem _ (List.mem_filter.2 ⟨h0, ?_⟩)
     exact bne_iff_ne.2 (fun hk => by cases hk)
+  · exact hI'.dbOld
   · intro p e h
     rcases mem_cacheSet h with h | h
     · injection h with hk he
@@ -262,6 +281,8 @@ theorem inv_dropTable {s : State} (hI : Inv hash eval namedText D s) (p : Phys) 
     show _ ∈ s.cache.filter fun q => q.2.phys != p
     refine List.mem_filter.2 ⟨hI.db p' v h1 text hh, ?_⟩
     exact bne_iff_ne.2 h2
+  · intro p' v h text u hh
+    exact hI.dbOld p' v (mem_dbDel (show (p', v) ∈ dbDel p s.db from h)).1 text u hh
   · intro p' e h; exact hI.phys p' e (List.mem_filter.1 h).1
   · intro t e h; exact hI.named t e (List.mem_filter.1 h).1
 
@@ -272,6 +293,7 @@ theorem inv_forgetNamed {s : State} (hI : Inv hash eval namedText D s) (t : Nat)
     show _ ∈ s.cache.filter fun q => q.1 != .named t
     refine List.mem_filter.2 ⟨hI.db p v h text hh, ?_⟩
     exact bne_iff_ne.2 (fun hk => by cases hk)
+  · exact hI.dbOld
   · intro p e h; exact hI.phys p e (List.mem_filter.1 h).1
   · intro t' e h; exact hI.named t' e (List.mem_filter.1 h).1
 
@@ -290,7 +312,8 @@ theorem inv_deleteCreated {s : State} (hI : Inv hash eval namedText D s) :
 invariant, whatever happened to the data: all tables named by a hash are tracked, hence dropped. -/
 theorem inv_invalidate_of_db {s : State}
     (hdb : ∀ p v, (p, v) ∈ s.db → ∀ text, p.hash = hash text s.uid →
-      (Key.phys p, (⟨p, v, true⟩ : Entry)) ∈ s.cache) :
+      (Key.phys p, (⟨p, v, true⟩ : Entry)) ∈ s.cache)
+    (hold : ∀ p v, (p, v) ∈ s.db → ∀ text u, p.hash = hash text u → u ≤ s.uid) :
     Inv hash eval namedText D (invalidate s) := by
   constructor
   · intro p v h text hh
@@ -298,23 +321,78 @@ theorem inv_invalidate_of_db {s : State}
     rw [invalidate_uid] at hh
     obtain ⟨h1, h2⟩ := mem_deleteCreated_db (show (p, v) ∈ (deleteCreated s).db from h)
     exact h2 v (hdb p v h1 text hh)
+  · intro p v h text u hh
+    rw [invalidate_uid]
+    exact hold p v (mem_deleteCreated_db (show (p, v) ∈ (deleteCreated s).db from h)).1 text u hh
   · intro p e h; cases h
   · intro t e h; cases h
 
 theorem inv_invalidate {s : State} (hI : Inv hash eval namedText D s) :
     Inv hash eval namedText D (invalidate s) :=
-  inv_invalidate_of_db hI.db
+  inv_invalidate_of_db hI.db hI.dbOld
 
 theorem inv_mutateInvalidate {s : State} (hI : Inv hash eval namedText D s) :
     Inv hash eval namedText D (mutateInvalidate s) :=
-  inv_invalidate_of_db (s := { s with data := s.data + 1 }) hI.db
+  inv_invalidate_of_db (s := { s with data := s.data + 1 }) hI.db hI.dbOld
+
+/-- Re-drawing the salt keeps the invariant: no catalog table is named by a hash under the new salt, the
+hashed dict entries all become unreachable (none is hashed under the new salt), the named ones are untouched. -/
+theorem inv_resalt {s : State} (hI : Inv hash eval namedText D s) :
+    Inv hash eval namedText D (resalt s) := by
+  constructor
+  · intro p v h text hh
+    exfalso
+    have := hI.dbOld p v h text (s.uid + 1) hh
+    omega
+  · intro p v h text u hh
+    exact Nat.le_succ_of_le (hI.dbOld p v h text u hh)
+  · intro p e h
+    obtain ⟨text, u, hh, hu, _⟩ := hI.phys p e h
+    refine ⟨text, u, hh, Nat.le_succ_of_le hu, ?_⟩
+    intro he
+    exfalso
+    have he : u = s.uid + 1 := he
+    omega
+  · exact hI.named
+
+/-- Only the two bounds on the salts in use are needed for a re-registration to restore the whole invariant,
+whatever happened to the data: after it nothing in the catalog or the dict is reachable by a request. -/
+theorem inv_reregister_of_bounds {s : State}
+    (hold : ∀ p v, (p, v) ∈ s.db → ∀ text u, p.hash = hash text u → u ≤ s.uid)
+    (hphys : ∀ p e, (Key.phys p, e) ∈ s.cache → ∃ text u, p.hash = hash text u ∧ u ≤ s.uid) :
+    Inv hash eval namedText D (reregister s) := by
+  constructor
+  · intro p v h text hh
+    exfalso
+    have := hold p v h text (s.uid + 1) hh
+    omega
+  · intro p v h text u hh
+    exact Nat.le_succ_of_le (hold p v h text u hh)
+  · intro p e h
+    have h : (Key.phys p, e) ∈ s.cache.filter fun q => match q.1 with | .named _ => false | .phys _ => true := h
+    obtain ⟨text, u, hh, hu⟩ := hphys p e (List.mem_filter.1 h).1
+    refine ⟨text, u, hh, Nat.le_succ_of_le hu, ?_⟩
+    intro he
+    exfalso
+    have he : u = s.uid + 1 := he
+    omega
+  · intro t e h
+    have h : (Key.named t, e) ∈ s.cache.filter fun q => match q.1 with | .named _ => false | .phys _ => true := h
+    have := (List.mem_filter.1 h).2
+    simp at this
+
+theorem inv_reregister {s : State} (hI : Inv hash eval namedText D s) :
+    Inv hash eval namedText D (reregister s) :=
+  inv_reregister_of_bounds hI.dbOld (fun p e h => by
+    obtain ⟨text, u, hh, hu, _⟩ := hI.phys p e h
+    exact ⟨text, u, hh, hu⟩)
 
 theorem inv_applyOp (hinj : HashInj hash) {s : State} (hI : Inv hash eval namedText D s) (op : Op)
     (hmut : op ≠ .mutate)
     (hD : ∀ r, op = .computeNamed r → D r.templ ∧ r.text = namedText r.templ) :
     Inv hash eval namedText D (applyOp hash eval s op) := by
   cases op with
-  | req r => exact inv_request hI r
+  | req r => exact inv_request hinj hI r
   | computeNamed r => exact inv_computeNamed hinj hI r (hD r rfl).1 (hD r rfl).2
   | drop p => exact inv_dropTable hI p
   | forgetNamed t => exact inv_forgetNamed hI t
@@ -322,6 +400,8 @@ theorem inv_applyOp (hinj : HashInj hash) {s : State} (hI : Inv hash eval namedT
   | mutateInvalidate => exact inv_mutateInvalidate hI
   | mutate => exact absurd rfl hmut
   | deleteCreated => exact inv_deleteCreated hI
+  | resalt => exact inv_resalt hI
+  | reregister => exact inv_reregister hI
 
 theorem inv_run (hinj : HashInj hash) (ops : List Op) {s : State} (hI : Inv hash eval namedText D s)
     (hmut : Op.mutate ∉ ops)
@@ -378,6 +458,63 @@ theorem request_after_mutateInvalidate (hash eval : Nat → Nat → Nat) (namedT
   have h := request_val hash eval namedText hinj _ post r hnamed' hmut'
   rw [h, run_append]
   exact congrArg (eval r.text) (mutateInvalidate_data _)
+
+theorem request_after_reregister (hash eval : Nat → Nat → Nat) (namedText : Nat → Nat)
+    (hinj : HashInj hash) (pre post : List Op) (r : Req)
+    (hnamed : NamedDiscipline namedText (pre ++ Op.reregister :: Op.req r :: post))
+    (hmut : NoSilentMutation pre) :
+    (request hash eval (run hash eval init (pre ++ [Op.reregister])) r).val =
+      eval r.text ((run hash eval init pre).data + 1) := by
+  have hnamed' : NamedDiscipline namedText ((pre ++ [Op.reregister]) ++ Op.req r :: post) := by
+    rw [List.append_assoc]; exact hnamed
+  have hmut' : NoSilentMutation (pre ++ [Op.reregister]) := by
+    intro h
+    rcases List.mem_append.1 h with h | h
+    · exact hmut h
+    · simp at h
+  have h := request_val hash eval namedText hinj _ post r hnamed' hmut'
+  rw [h, run_append]
+  rfl
+
+/-- the data version never decreases -/
+theorem applyOp_data_le (hash eval : Nat → Nat → Nat) (s : State) (op : Op) :
+    s.data ≤ (applyOp hash eval s op).data := by
+  cases op with
+  | req r => exact Nat.le_of_eq (request_data (hash := hash) (eval := eval) s r).symm
+  | computeNamed r =>
+    show s.data ≤ (request hash eval s r).state.data
+    exact Nat.le_of_eq (request_data (hash := hash) (eval := eval) s r).symm
+  | drop p => exact Nat.le_refl _
+  | forgetNamed t => exact Nat.le_refl _
+  | invalidate => exact Nat.le_of_eq (invalidate_data s).symm
+  | mutateInvalidate => rw [show applyOp hash eval s .mutateInvalidate = mutateInvalidate s from rfl, mutateInvalidate_data]; omega
+  | mutate => show s.data ≤ s.data + 1; omega
+  | deleteCreated => exact Nat.le_of_eq (deleteCreated_data s).symm
+  | resalt => exact Nat.le_refl _
+  | reregister => show s.data ≤ s.data + 1; omega
+
+theorem run_data_le (hash eval : Nat → Nat → Nat) (ops : List Op) (s : State) :
+    s.data ≤ (run hash eval s ops).data := by
+  induction ops generalizing s with
+  | nil => exact Nat.le_refl _
+  | cons op ops ih =>
+    exact Nat.le_trans (applyOp_data_le hash eval s op) (ih (applyOp hash eval s op))
+
+/-- after a re-registration EVERY later request (whatever ran in between, silent mutations excepted)
+returns what its SQL denotes on the data of its own time, which are newer than the replaced ones -/
+theorem request_later_after_reregister (hash eval : Nat → Nat → Nat) (namedText : Nat → Nat)
+    (hinj : HashInj hash) (pre mid post : List Op) (r : Req)
+    (hnamed : NamedDiscipline namedText ((pre ++ Op.reregister :: mid) ++ Op.req r :: post))
+    (hmut : NoSilentMutation (pre ++ Op.reregister :: mid)) :
+    (request hash eval (run hash eval init (pre ++ Op.reregister :: mid)) r).val =
+        eval r.text (run hash eval init (pre ++ Op.reregister :: mid)).data ∧
+      (run hash eval init pre).data < (run hash eval init (pre ++ Op.reregister :: mid)).data := by
+  refine ⟨request_val hash eval namedText hinj _ post r hnamed hmut, ?_⟩
+  rw [run_append]
+  show _ < (run hash eval (reregister (run hash eval init pre)) mid).data
+  have := run_data_le hash eval mid (reregister (run hash eval init pre))
+  rw [reregister_data] at this
+  omega
 
 theorem hit_equals_miss (hash eval : Nat → Nat → Nat) (namedText : Nat → Nat)
     (hinj : HashInj hash) (pre post : List Op) (r : Req)
